@@ -37,7 +37,8 @@ type DrvCase struct {
 	// report (a view) is created over the table of bit 0 / bit 4 (PostgreSQL refuses to drop a table others
 	// depend on unless CASCADE is given), bit 4 = two tables whose foreign keys reference each other
 	// are created in the first schema, bit 5 = the replayed statements end with `USE <second schema>`
-	// (MySQL, bound connection): the session's current database is no longer the bound one.
+	// (MySQL, bound connection): the session's current database is no longer the bound one, bit 6 = a
+	// replayed statement changed the collation of the bound database (ALTER DATABASE ... COLLATE).
 	Replay int `json:"replay"`
 	// Op: "" = Snapshot, replay, restore (above); "normalize" = the driver's own NormalizeSchema (bound
 	// connection) / NormalizeRealm (unbound) of a one-table desired state: the command takes the
@@ -133,6 +134,8 @@ type mockDB struct {
 	calls, fail   int
 	// session: the database the session was switched to by a replayed `USE` ("" = still the bound one).
 	session string
+	// coll: schema -> collation (MySQL; nil = schemas carry no charset / collation attributes).
+	coll map[string]string
 }
 
 func (m *mockDB) InspectSchema(_ context.Context, name string, _ *schema.InspectOptions) (*schema.Schema, error) {
@@ -157,6 +160,11 @@ func (m *mockDB) InspectRealm(context.Context, *schema.InspectRealmOption) (*sch
 // realm renders the catalogue, foreign keys included (objects the inspector does not report - deps - excluded).
 func (m *mockDB) realm() *schema.Realm {
 	r := m.cat.realm()
+	if m.coll != nil {
+		for _, sc := range r.Schemas {
+			sc.SetCharset("utf8mb4").SetCollation(m.coll[sc.Name])
+		}
+	}
 	for from, refs := range m.fks {
 		fs, ft := from[:strings.Index(from, ".")], from[strings.Index(from, ".")+1:]
 		s1, ok := r.Schema(fs)
@@ -206,6 +214,7 @@ var (
 	reAlterTable = regexp.MustCompile("(?i)^ALTER TABLE " + reQID + " (.*)$")
 	reDropFKC    = regexp.MustCompile("(?i)DROP (?:CONSTRAINT|FOREIGN KEY) [`\"]([^`\"]+)[`\"]")
 	reCreateTab  = regexp.MustCompile("(?i)^CREATE TABLE " + reQID)
+	reAlterDB    = regexp.MustCompile("(?i)^ALTER DATABASE `([^`]+)`(?: CHARSET \\S+)? COLLATE (\\S+)$")
 )
 
 // key turns a possibly qualified, quoted identifier into "schema.table".
@@ -303,6 +312,9 @@ func (m *mockDB) ApplyChanges(ctx context.Context, changes []schema.Change, opts
 				}
 				m.fks[k] = keep
 			}
+		case reAlterDB.MatchString(stmt) && m.coll != nil:
+			g := reAlterDB.FindStringSubmatch(stmt)
+			m.coll[g[1]] = g[2]
 		case reCreateTab.MatchString(stmt):
 			sc, t := m.key(reCreateTab.FindStringSubmatch(stmt)[1])
 			if m.cat[sc] == nil {
@@ -394,6 +406,10 @@ func EvalDriver(c DrvCase) (problems []string, outcome string) {
 	m := &mockDB{cat: init.clone(), deps: map[string]bool{}, fks: map[string][]string{}, pg: c.Dialect == "postgres" || c.Dialect == "cockroach", crdb: c.Dialect == "cockroach", defaultSchema: names[0]}
 	if c.Bound {
 		m.bound = names[0]
+	}
+	const defColl = "utf8mb4_0900_ai_ci"
+	if c.Replay&64 != 0 {
+		m.coll = map[string]string{names[0]: defColl, names[1]: defColl, "extra": defColl}
 	}
 	bound := c.Bound && init[names[0]] != nil // binding to a schema that does not exist is no binding
 	drv, closeDB, err := openDriver(c.Dialect, m)
@@ -498,6 +514,9 @@ func EvalDriver(c DrvCase) (problems []string, outcome string) {
 	if c.Replay&32 != 0 {
 		m.session = names[1] // the last replayed statement is `USE other`
 	}
+	if c.Replay&64 != 0 {
+		m.coll[names[0]] = "utf8mb4_bin" // a replayed statement was ALTER DATABASE COLLATE utf8mb4_bin
+	}
 	after := m.cat.clone()
 	if err := restore(context.Background()); err != nil {
 		bad("restore failed: %v", err)
@@ -507,6 +526,9 @@ func EvalDriver(c DrvCase) (problems []string, outcome string) {
 		if len(v) == 0 {
 			delete(m.fks, k)
 		}
+	}
+	if m.coll != nil && m.coll[names[0]] != defColl && m.cat[names[0]] != nil {
+		bad("the dev database keeps the collation the replay gave it: %s (applied %v)", m.coll[names[0]], m.applied)
 	}
 	if m.cat.String() != init.String() || len(m.deps) > 0 || len(m.fks) > 0 {
 		bad("the dev database is not handed back as it was: before %s, after the replay %s, after the restore %s dependents %v (applied %v)", init, after, m.cat, m.deps, m.applied)
@@ -526,11 +548,14 @@ func drvCases() []DrvCase {
 					continue // CockroachDB has no database without the schema public (it cannot be dropped)
 				}
 				for _, b := range []bool{false, true} {
-					for rp := 0; rp < 64; rp++ {
+					for rp := 0; rp < 128; rp++ {
 						if rp&32 != 0 && !(d == "mysql" && b && s1 > 0) {
 							continue // `USE`: MySQL sessions, the other schema exists
 						}
-						if b && rp&^(25|32) != 0 {
+						if rp&64 != 0 && !(d == "mysql" && b && s0 > 0 && rp&32 == 0) {
+							continue // ALTER DATABASE: MySQL, bound connection, the schema exists
+						}
+						if b && rp&^(25|32|64) != 0 {
 							continue // a bound connection replays into its own schema only
 						}
 						if rp&8 != 0 && (rp&17 == 0 || d == "mysql") {
